@@ -985,3 +985,136 @@ func (ex *Exec) stateVersion(w *World) int {
 	}
 	return len(w.Log)
 }
+
+// CommuteCheck: two calls of fn with argument tuples X and X2 (condition c over both) leave
+// the same ghost world whichever runs first, whenever all four calls succeed. Compared: every
+// balance, every supply, and every row of every table either order touched (at arbitrary keys).
+func (e *Env) CommuteCheck(fn *ssa.Function, ct *Contract, c *Clause, maxPaths int) *FuncResult {
+	fr := &FuncResult{Fn: fn, Contract: ct, Aborts: map[string]int{}, Bounded: map[string]int{}}
+	fkey := FuncKey(fn)
+	e.Cfg.Deadline = time.Now().Add(60 * time.Second)
+	defer func() { e.Cfg.Deadline = time.Time{} }()
+	paths, capped := e.Explore(maxPaths, func(ex *Exec) {
+		ex.TopKey = fkey
+		ev := &evalEnv{ex: ex, vars: map[string]tval{}, oldVars: map[string]tval{}, specs: e.Specs}
+		if fn.Pkg != nil {
+			ev.pkg = fn.Pkg.Pkg
+		}
+		mk := func(suffix string, w *World) []Val {
+			var args []Val
+			for i, p := range fn.Params {
+				name := paramName(p, i)
+				var v Val
+				switch {
+				case isSdkCtx(p.Type()):
+					v = &CtxV{W: w}
+				case i == 0 && fn.Signature.Recv() != nil:
+					v = ex.symbolic(p.Type(), Namer{Prefix: "arg." + name}) // same receiver for both calls
+				default:
+					v = ex.symbolic(p.Type(), Namer{Prefix: "arg." + name + suffix})
+				}
+				args = append(args, v)
+				ev.vars[name+suffix] = tval{v, p.Type()}
+			}
+			return args
+		}
+		wA, wB := NewWorld(""), NewWorld("")
+		a1, a2 := mk("", wA), mk("2", wA)
+		ex.assume(ev.bool(c.Expr))
+		okAll := smt.True
+		run := func(args []Val, w *World) {
+			cp := make([]Val, len(args))
+			for i, a := range args {
+				if _, isCtx := a.(*CtxV); isCtx {
+					cp[i] = &CtxV{W: w}
+				} else {
+					cp[i] = copyDeep(a)
+				}
+			}
+			r := ex.Run(fn, cp, nil)
+			var errV Val
+			switch rs := fn.Signature.Results(); rs.Len() {
+			case 0:
+			case 1:
+				if isErrorType(rs.At(0).Type()) {
+					errV = r
+				}
+			default:
+				if isErrorType(rs.At(rs.Len() - 1).Type()) {
+					errV = r.(TupleV)[rs.Len()-1]
+				}
+			}
+			if errV != nil {
+				okAll = smt.And(okAll, smt.Eq(ex.term(errV), ex.nilErr()))
+			}
+		}
+		run(a1, wA)
+		run(a2, wA)
+		run(a2, wB)
+		run(a1, wB)
+		name := fkey + "/commutes:" + c.Name
+		addr, den := smt.Var("any.addr", smt.Addr), smt.Var("any.denom", smt.Str)
+		ex.oblige(name+"/balances", smt.Implies(okAll, smt.Eq(ex.bal(wA, addr, den), ex.bal(wB, addr, den))), "")
+		ex.oblige(name+"/supply", smt.Implies(okAll, smt.Eq(ex.supply(wA, den), ex.supply(wB, den))), "")
+		ids := map[string]bool{}
+		for id := range wA.Tables {
+			ids[id] = true
+		}
+		for id := range wB.Tables {
+			ids[id] = true
+		}
+		var sorted []string
+		for id := range ids {
+			sorted = append(sorted, id)
+		}
+		sort.Strings(sorted)
+		for _, id := range sorted {
+			var sample []*smt.Term
+			for _, w := range []*World{wA, wB} {
+				if t := w.Tables[id]; t != nil && len(t.Writes) > 0 {
+					sample = t.Writes[0].Key
+				}
+			}
+			if sample == nil {
+				continue // only read
+			}
+			var key []*smt.Term
+			for i, k := range sample {
+				if k.IsLit() {
+					key = append(key, k) // literal key parts (prefix tags) stay
+				} else {
+					key = append(key, smt.Var(fmt.Sprintf("any.key%d", i), k.Sort))
+				}
+			}
+			ra := ex.tableGet(wA, id, key)
+			rb := ex.tableGet(wB, id, key)
+			same := smt.BoolC((ra == nil) == (rb == nil))
+			if ra != nil && rb != nil {
+				switch {
+				case ra.Tag == "marshal" && rb.Tag == "marshal":
+					same = ex.sameVal(ra.Obj, rb.Obj)
+				case ra.Row != nil && rb.Row != nil:
+					same = smt.And(smt.BoolC(ra.Row.Base == rb.Row.Base), keysEq(ra.Row.Key, rb.Row.Key))
+				case ra.Tag == rb.Tag && len(ra.Args) == len(rb.Args):
+					same = keysEq(ra.Args, rb.Args)
+				default:
+					same = smt.False
+				}
+			}
+			ex.oblige(name+"/table:"+id, smt.Implies(okAll, same), "")
+		}
+		if !ex.simplifyUnder(okAll).IsFalse() {
+			ex.Obligs = append(ex.Obligs, &Oblig{Cover: true, Name: fkey + "/cover:commutes:" + c.Name, Hyps: append([]*smt.Term(nil), ex.pc...), Goal: smt.Not(okAll), Path: ex.pathString()})
+		}
+	})
+	fr.Paths, fr.Capped = paths, capped
+	for _, p := range paths {
+		if p.Outcome == "abort" {
+			fr.Aborts[p.Msg]++
+		}
+		for k, v := range p.Bounded {
+			fr.Bounded[k] = v
+		}
+	}
+	return fr
+}
